@@ -536,7 +536,11 @@ def correspond(run, corr):
     wimpl2 = vf.run_lines(T.HARNESS, wreqs2, env=henv(run))
     allreq = wreqs + bad + rreqs + creqs + sreqs + hreqs + wreqs2
     model = vf.run_driver(allreq)
-    corr.compare(allreq, wimpl + bimpl + rimpl + cimpl + simpl + himpl + wimpl2, model)
+    # the property quantifies over captures written from VALID messages (and their truncations): invalid messages handed to
+    # append, corrupted captures and objects opened on arbitrary content are compared and recorded, but how the reader treats
+    # content no writer produces is not what C15 speaks about (C14: it must not crash)
+    outside = set(bad) | set(creqs) | set(wreqs2)
+    corr.compare(allreq, wimpl + bimpl + rimpl + cimpl + simpl + himpl + wimpl2, model, in_domain=lambda r: r not in outside)
     for (r, ops, mode, name), a in zip(hh, himpl):
         corr.count(r, "history on one object (%s, %s)" % ({"b": "io.BytesIO", "w": "file object w+b", "p": "path, a+b"}[mode],
                                                           "fixed" if name != "seeded" else "seeded"))
